@@ -7,14 +7,20 @@ TARGETS = {
 }
 
 
+# ASan's stack depot grows with every distinct malloc/free stack; rapidcheck's deep, varying generator stacks make long
+# rc runs super-linear in time and memory with the driver's malloc_context_size=12 (500 000 cases: > 30 CPU-min, > 4 GB).
+# 5 frames keep it linear (~5000 cases/s, < 0.5 GB); the stack of the faulting access itself is still complete.
+_ENV = {"ASAN_OPTIONS": "detect_leaks=1:detect_stack_use_after_return=0:allocator_may_return_null=1:handle_abort=0:symbolize=1:malloc_context_size=5"}
+
+
 def _rc(sub, q, t, qsize=100, tsize=200):
-    return {"target": "c19_codecs_rc", "sub": sub,
+    return {"target": "c19_codecs_rc", "sub": sub, "env": _ENV,
             "quick": {"cases": q, "max_size": qsize, "workers": 1},
             "thorough": {"cases": t, "max_size": tsize, "workers": 1}}
 
 
 def _fz(sub, q, t, qlen=400, tlen=2000):
-    return {"target": "c19_codecs_fuzz", "sub": sub,
+    return {"target": "c19_codecs_fuzz", "sub": sub, "env": _ENV,
             "quick": {"runs": q, "max_len": qlen, "workers": 1, "unit_timeout": 120},
             "thorough": {"runs": t, "max_len": tlen, "workers": 1, "unit_timeout": 120}}
 
@@ -32,7 +38,7 @@ PROP = {
         _rc("md5", 12000, 280000), _fz("md5", 32000, 1300000),
         _rc("aes", 3000, 70000), _fz("aes", 25000, 1000000),
         # messages of >= 2^29 bytes: ~10 s per case (the reference hashes 512 MiB once, the code under test twice, under ASan)
-        {"target": "c19_codecs_rc", "sub": "md5_long", "replay_alarm": 900,
+        {"target": "c19_codecs_rc", "sub": "md5_long", "replay_alarm": 900, "env": _ENV,
          "quick": {"cases": 2, "max_size": 10, "workers": 1},
          "thorough": {"cases": 50, "max_size": 10, "workers": 1}},
     ],
